@@ -35,6 +35,13 @@ class ExprMixin:
             return g
         if name in self.E.globals:
             return self.E.globals[name]
+        if self.c is not None and name in getattr(self.c, "inline_calls", ()):
+            # a module-level helper of the verified function's own module, inlined from its real source (single-return bodies only)
+            mod = self.E.module_ast(self.c.module)[0]
+            for n in mod.body:
+                if isinstance(n, ast.FunctionDef) and n.name == name:
+                    return Closure(n, {}, name)
+            raise Unsupported(f"inline helper {name!r} not found in {self.c.module}")
         cs = self.E.registry.by_func.get(name)
         if cs:
             from .calls import Contract_
